@@ -41,6 +41,14 @@ def make_proposals(kind, params, rng):
         if len(params) > 1:
             props.append(P.Normal(params[1:], cov=[1.0] * (len(params) - 1), jump_interval=2, jump_interval_duration=7))
         return props
+    if kind == 'allslow':
+        # every parameter is slow: between jumps the proposed point IS the current point
+        return [P.Normal(params, cov=[1.0] * len(params), jump_interval=rng.choice([2, 3]), jump_interval_duration=rng.choice([5, 9]))]
+    if kind == 'allslow2':
+        props = [P.Normal([params[0]], jump_interval=2, jump_interval_duration=8)]
+        if len(params) > 1:
+            props.append(P.AdaptiveNormal(params[1:], {p: 40. for p in params[1:]}, adaptation_duration=8, jump_interval=4))
+        return props
     if kind == 'td':
         from . import configs
         n = len(params) - 1
@@ -60,13 +68,14 @@ class Config:
         self.si = rng.choice([1, 1, 2, 3, 4]) if self.pt else 1
         self.betas = sorted([1.0] + [round(rng.uniform(0.01, 0.95), 3) for _ in range(self.ntemps - 2)] +
                             ([rng.choice([0.0, 0.05])] if self.ntemps > 1 else []), reverse=True)
-        self.prop_kind = rng.choice(['default', 'normal', 'adaptive', 'ss', 'at', 'bounded', 'mixed'])
+        self.prop_kind = rng.choice(['default', 'normal', 'adaptive', 'ss', 'at', 'bounded', 'mixed', 'allslow', 'allslow2'])
         self.sigma = rng.choice([0.5, 1.0, 3.0])
         self.seed = rng.randrange(1, 10 ** 6)
         self.box = rng.choice([20.0, 20.0, 2.5])      # small box: proposals leave the prior support -> forced rejects
-        if self.prop_kind in ('bounded', 'mixed', 'adaptive'):
+        if self.prop_kind in ('bounded', 'mixed', 'adaptive', 'allslow2'):
             self.box = 20.0
         self.comps = []
+        self.annealer = bool(self.pt and self.ntemps >= 3 and rng.random() < 0.25)
         if (rng.random() < 0.15 and td is None) or td:
             self.prop_kind = 'td'
             n = rng.choice([2, 3, 4])
@@ -77,7 +86,8 @@ class Config:
 
     def describe(self):
         return dict(pt=self.pt, nparams=self.nparams, blobs=self.blobs, nchains=self.nchains, ntemps=self.ntemps,
-                    swap_interval=self.si, betas=self.betas, proposals=self.prop_kind, box=self.box, seed=self.seed)
+                    swap_interval=self.si, betas=self.betas, proposals=self.prop_kind, box=self.box, seed=self.seed,
+                    annealer=getattr(self, 'annealer', False))
 
     def build(self, tracer, seed=None):
         if self.prop_kind == 'td':
@@ -90,8 +100,12 @@ class Config:
         props = make_proposals(self.prop_kind, self.params, rng)
         seed = self.seed if seed is None else seed
         if self.pt:
+            ann = None
+            if getattr(self, 'annealer', False):
+                from epsie.chain.ptchain import DynamicalAnnealer
+                ann = DynamicalAnnealer(tau=20, nu=2, Tmax_prior=(self.betas[-1] == 0.0))
             s = ParallelTemperedSampler(self.params, model, self.nchains, betas=numpy.array(self.betas),
-                                        swap_interval=self.si, proposals=props, seed=seed)
+                                        swap_interval=self.si, proposals=props, adaptive_annealer=ann, seed=seed)
         else:
             s = MetropolisHastingsSampler(self.params, model, self.nchains, proposals=props, seed=seed)
         return s
@@ -116,7 +130,28 @@ class Config:
                 for p in self.params}
 
 
+def gen_state_ops(rng, thorough):
+    """schedules around set_state: into the running sampler (rewind) and into fresh ones, with runs before and after"""
+    ops = [('start',), ('run', rng.choice([2, 3, 4, 6]))]
+    nst = 0
+    for _ in range(rng.randrange(2, 5 if not thorough else 8)):
+        r = rng.random()
+        if r < 0.35 or nst == 0:
+            ops.append(('getstate',))
+            nst += 1
+        elif r < 0.7:
+            ops.append(('setstate', rng.randrange(nst)))          # load into the sampler that is running
+        elif r < 0.85:
+            ops.append(('fresh', rng.randrange(nst)))
+        else:
+            ops.append(('clear',))
+        ops.append(('run', rng.choice([1, 2, 3, 4, 5])))
+    return ops
+
+
 def gen_ops(rng, thorough, allow_setstate=True):
+    if allow_setstate and rng.random() < 0.3:
+        return gen_state_ops(rng, thorough)
     """Operation schedule: ('start',) ('run', n) ('clear',) ('getstate',) ('setstate', k) ('fresh', k)."""
     ops = [('start',)]
     total = 0
@@ -260,6 +295,7 @@ class CaseBuilder:
         self.I = Interner()
         self.keep_alive = []
         self.events = []       # per op: dict(kind, n, obs=[per chain], raised=bool)
+        self.anomalies = []
 
     def mout(self, r):
         if len(r) == 3:
@@ -355,6 +391,8 @@ class CaseBuilder:
                                 recs = tracer.steps.get(id(lv), [])
                                 k = used_steps[ci].get(id(lv), 0)
                                 if k >= len(recs) or not [m for m in recs[k]['model'] if m[0] == 'main']:
+                                    if k < len(recs):
+                                        self.anomalies.append('iteration %d made no model evaluation at its proposed point' % recs[k].get('iteration_after', -1))
                                     ok = False
                                     break
                                 ins.append(self.sin(recs[k]))
